@@ -58,7 +58,7 @@ func lsScenario(seed uint64, rig string, hs []interface{}) *scn.Scenario {
 }
 
 var ulKinds = []string{"regcomplete", "smc", "authresp", "dereg", "est", "relreq", "svc", "gsm-est", "gsm-rel", "gsm-mod"}
-var dlKinds = []string{"authreq", "smc", "regaccept", "cuc", "svcaccept", "deregaccept", "dlnas"}
+var dlKinds = []string{"authreq", "smc", "regaccept", "cuc", "svcaccept", "deregaccept", "dlnas", "authresult", "authreject", "idreq", "svcreject", "regreject"}
 
 func genMsg(r *kernel.Rand, kinds []string) map[string]interface{} {
 	return map[string]interface{}{"kind": kinds[r.Intn(len(kinds))], "len": r.Pick(0, 1, 2, 3, 4, 5, 7, 8, 15, 16, 17, 31, 32, 33, r.Range(0, 200)), "seed": r.Intn(1 << 30)}
@@ -181,7 +181,7 @@ func checkC06(c *Ctx) {
 
 func genDLHistory(r *kernel.Rand, maxOps int) map[string]interface{} {
 	p := algPairs[r.Intn(len(algPairs))]
-	h := map[string]interface{}{"nea": p[0], "nia": p[1], "kenc": hex.EncodeToString(boundary128(r)), "kint": hex.EncodeToString(boundary128(r))}
+	h := map[string]interface{}{"nea": p[0], "nia": p[1], "kenc": hex.EncodeToString(boundary128(r)), "kint": hex.EncodeToString(boundary128(r)), "authenticated": r.Sub("auth").Bool()}
 	switch r.Intn(4) {
 	case 0:
 		h["start_overflow"], h["start_sqn"] = r.Intn(65535), 256-r.Range(1, 40)
@@ -209,12 +209,17 @@ func genDLHistory(r *kernel.Rand, maxOps int) map[string]interface{} {
 		if sh, _ := op["sht"].(int); sh != 0 && sh != 3 && sh != 4 && r.Sub(fmt.Sprint("cm", i)).Chance(1, 12) {
 			op["corrupt_mac"] = r.Sub(fmt.Sprint("cmv", i)).Intn(32)
 		}
-		if r.Chance(1, 4) && dropRun < 200 {
+		if r.Chance(1, 4) && dropRun < 250 {
 			op["drop"] = true
 			dropRun++
-			// bursts of losses create long gaps in the sequence numbers
+			// bursts of losses create long gaps in the sequence numbers: short ones, and ones of more
+			// than half the sequence-number space (up to 250 in a row)
 			if r.Chance(1, 3) {
-				for k := 0; k < r.Range(1, 60) && dropRun < 200; k++ {
+				burst := r.Range(1, 60)
+				if r.Chance(1, 4) {
+					burst = r.Range(120, 249)
+				}
+				for k := 0; k < burst && dropRun < 250; k++ {
 					ops = append(ops, map[string]interface{}{"op": "send", "sht": 2, "msg": genMsg(r, dlKinds), "via": "direct", "drop": true})
 					dropRun++
 				}
@@ -223,6 +228,38 @@ func genDLHistory(r *kernel.Rand, maxOps int) map[string]interface{} {
 			dropRun = 0
 		}
 		ops = append(ops, op)
+	}
+	// no receiver can follow a gap of 256 or more sequence numbers: cap every run of losses at 250
+	run := 0
+	pendingNew := false // the message that takes a new context into use was lost and not yet retransmitted
+	for _, o := range ops {
+		m := o.(map[string]interface{})
+		sh, _ := m["sht"].(int)
+		if sh == 0 {
+			continue // a plain message carries no sequence number: it neither widens nor closes a gap
+		}
+		forced, _ := m["force_drop"].(bool)
+		if d, _ := m["drop"].(bool); d && ((sh != 3 && sh != 4) || forced) {
+			if sh == 3 || sh == 4 {
+				pendingNew = true
+			}
+			run++
+			if run > 250 {
+				m["drop"] = false
+				delete(m, "force_drop")
+				if pendingNew { // the one that gets through must be the retransmitted new-context message
+					m["sht"], m["retx"] = 3, true
+					delete(m, "corrupt_mac")
+					pendingNew = false
+				}
+				run = 0
+			}
+		} else if _, bad := m["corrupt_mac"]; !bad {
+			run = 0
+			if sh == 3 || sh == 4 {
+				pendingNew = false
+			}
+		}
 	}
 	h["ops"] = ops
 	return h
